@@ -1,18 +1,150 @@
-/- C06 — property theorems (being filled). -/
-import SkNet.Model.Modularity
-import SkNet.Model.ModularityOpt
-import SkNet.Spec.Modularity
+/-
+C06 — Modularity is computed as defined and Louvain / Leiden never make it worse.
+
+Theorems about the models of `get_modularity` (Model/Modularity.lean) and of the optimisers
+(Model/ModularityOpt.lean); the specifications are in Spec/Modularity.lean.  Only property theorems here; the
+proofs rest on SkNet/Lemmas/Modularity*.lean.
+-/
+import SkNet.Lemmas.ModularityMetric
+import SkNet.Lemmas.ModularityComponents
 
 namespace SkNet.C06
 open SkNet SkNet.Modularity
 
-theorem setInsert_ne_nil (x : Nat) (s : List Nat) : setInsert x s ≠ [] := by
-  cases s with
-  | nil => simp [setInsert]
-  | cons y ys =>
-    unfold setInsert
-    split
-    · simp
-    · split <;> simp
+/-! ## 1. `get_modularity` returns the modularity of its documentation -/
+
+/-- **getModularity_eq_def (all weightings, square or bipartite input).**  Whenever `get_modularity` returns,
+    its `fit` is `(1/w) Σ_{i,j} A_ij δ(c_i,c_j)`, its `div` is `Σ_{i,j} p_i p'_j δ(c_i,c_j)` for the probability
+    vectors `p, p'` it derives from `weights`, and the three figures add up: `mod = fit − γ·div`.
+    `A` is the input matrix, or the block matrix `[[0,B],[Bᵀ,0]]` with stacked labels for a rectangular input;
+    nodes with a negative label belong to no cluster. -/
+theorem getModularity_terms (nRow nCol nnz : Nat) (B : Nat → Nat → Rat) (labels : List Int)
+    (labelsCol : Option (List Int)) (weights : Weights) (γ : Rat) (o : ModOut)
+    (h : getModularity nRow nCol nnz B labels labelsCol weights γ = .ok o) :
+    ∃ lab pr pc, modLabels nRow nCol labels labelsCol = .ok lab ∧
+      getProbs (modAdj nRow nCol B).1 weights (modAdj nRow nCol B).2 = .ok pr ∧
+      getProbs (modAdj nRow nCol B).1 weights (fun i j => (modAdj nRow nCol B).2 j i) = .ok pc ∧
+      o.fit = fitDoc (modAdj nRow nCol B).1 (modAdj nRow nCol B).2 (labelAt lab) ∧
+      o.div = divDoc (modAdj nRow nCol B).1 pr pc (labelAt lab) ∧
+      o.mod = o.fit - γ * o.div := by
+  obtain ⟨lab, pr, pc, h1, h2, h3, -, rfl⟩ := getModularity_ok _ _ _ _ _ _ _ _ _ h
+  exact ⟨lab, pr, pc, h1, h2, h3, modTerms_fit _ _ _ _ _ _, modTerms_div _ _ _ _ _ _, rfl⟩
+
+/-- **getModularity_eq_def, `weights='degree'`.**  The returned modularity is the documented
+    `Q = (1/w) Σ_{i,j} (A_ij − γ d⁺_i d⁻_j / w) δ(c_i,c_j)` (directed form), on the input matrix or, for a
+    rectangular input, on its block adjacency with the stacked labels. -/
+theorem getModularity_eq_def (nRow nCol nnz : Nat) (B : Nat → Nat → Rat) (labels : List Int)
+    (labelsCol : Option (List Int)) (γ : Rat) (o : ModOut)
+    (h : getModularity nRow nCol nnz B labels labelsCol .degree γ = .ok o) :
+    ∃ lab, modLabels nRow nCol labels labelsCol = .ok lab ∧
+      o.mod = modularityDoc (modAdj nRow nCol B).1 (modAdj nRow nCol B).2 γ (labelAt lab) := by
+  obtain ⟨lab, pr, pc, h1, h2, h3, -, rfl⟩ := getModularity_ok _ _ _ _ _ _ _ _ _ h
+  refine ⟨lab, h1, ?_⟩
+  rw [modTerms_mod, modTerms_fit, modTerms_div, getProbs_degree _ _ _ h2, getProbs_degree _ _ _ h3,
+    totalWeight_transpose, ← fit_sub_div_eq_doc]
+  rfl
+
+/-- the undirected form of the documentation: `Q = (1/w) Σ_{i,j} (A_ij − γ d_i d_j / w) δ(c_i,c_j)` -/
+def modularityDocUndirected (n : Nat) (A : Nat → Nat → Rat) (γ : Rat) (c : Nat → Int) : Rat :=
+  let w := totalWeight n A
+  (1 / w) * sumTo n fun i => sumTo n fun j =>
+    if sameCluster c i j then A i j - γ * (outDeg n A i * outDeg n A j / w) else 0
+
+/-- for a symmetric matrix the directed form is the undirected form -/
+theorem modularityDoc_undirected (n : Nat) (A : Nat → Nat → Rat) (γ : Rat) (c : Nat → Int)
+    (hA : ∀ i j, i < n → j < n → A i j = A j i) :
+    modularityDoc n A γ c = modularityDocUndirected n A γ c := by
+  unfold modularityDoc modularityDocUndirected
+  have hdeg : ∀ j, j < n → inDeg n A j = outDeg n A j := by
+    intro j hj
+    unfold inDeg outDeg
+    exact sumTo_congr fun i hi => hA i j hi hj
+  simp only
+  congr 1
+  refine sumTo_congr fun i _ => sumTo_congr fun j hj => ?_
+  rw [hdeg j hj]
+
+/-- **getModularity_eq_def, `weights='uniform'`.**  `Q = Σ_{i,j} (A_ij / w − γ / n²) δ(c_i,c_j)`. -/
+theorem getModularity_eq_def_uniform (nRow nCol nnz : Nat) (B : Nat → Nat → Rat) (labels : List Int)
+    (labelsCol : Option (List Int)) (γ : Rat) (o : ModOut)
+    (h : getModularity nRow nCol nnz B labels labelsCol .uniform γ = .ok o) :
+    ∃ lab, modLabels nRow nCol labels labelsCol = .ok lab ∧
+      o.mod = modularityWeighted (modAdj nRow nCol B).1 (modAdj nRow nCol B).2
+        (fun _ => 1 / ((modAdj nRow nCol B).1 : Rat)) γ (labelAt lab) := by
+  obtain ⟨lab, pr, pc, h1, h2, h3, -, rfl⟩ := getModularity_ok _ _ _ _ _ _ _ _ _ h
+  refine ⟨lab, h1, ?_⟩
+  rw [modTerms_mod, modTerms_fit, modTerms_div, getProbs_uniform _ _ _ h2, getProbs_uniform _ _ _ h3,
+    fit_sub_div_eq_weighted]
+
+/-- **getModularity_eq_def, custom node weights `v`.**  `Q = Σ_{i,j} (A_ij / w − γ p_i p_j) δ(c_i,c_j)`, `p = v/Σv`. -/
+theorem getModularity_eq_def_custom (nRow nCol nnz : Nat) (B : Nat → Nat → Rat) (labels : List Int)
+    (labelsCol : Option (List Int)) (v : List Rat) (γ : Rat) (o : ModOut)
+    (h : getModularity nRow nCol nnz B labels labelsCol (.custom v) γ = .ok o) :
+    ∃ lab, modLabels nRow nCol labels labelsCol = .ok lab ∧
+      o.mod = modularityWeighted (modAdj nRow nCol B).1 (modAdj nRow nCol B).2
+        (fun i => v.getD i 0 / sumTo (modAdj nRow nCol B).1 fun j => v.getD j 0) γ (labelAt lab) := by
+  obtain ⟨lab, pr, pc, h1, h2, h3, -, rfl⟩ := getModularity_ok _ _ _ _ _ _ _ _ _ h
+  refine ⟨lab, h1, ?_⟩
+  rw [modTerms_mod, modTerms_fit, modTerms_div, getProbs_custom _ _ _ _ h2, getProbs_custom _ _ _ _ h3,
+    fit_sub_div_eq_weighted]
+
+/-- non-vacuity: the `house` example of the docstring (labels 0,0,1,1,0) goes through and gives 9/80 ≈ 0.11 -/
+example :
+    (getModularity 5 5 12
+      (fun i j => if (i, j) ∈ [(0,1),(1,0),(0,4),(4,0),(1,2),(2,1),(1,4),(4,1),(2,3),(3,2),(3,4),(4,3)] then 1 else 0)
+      [0, 0, 1, 1, 0] none .degree 1).toOption.map (·.mod) = some (1 / 9 : Rat) := by decide +kernel
+
+/-! ## 2. the gain of a move -/
+
+/-- **delta_move.**  For a symmetric matrix, the kernels' `delta_local − delta` is exactly the change of the
+    generalised modularity `Q` when node `v` moves from its cluster to cluster `b`. -/
+theorem delta_move (n : Nat) (A : Nat → Nat → Rat) (hA : ∀ i j, i < n → j < n → A i j = A j i)
+    (o i_ : Nat → Rat) (γ : Rat) (c : Nat → Nat) (v : Nat) (hv : v < n) (b : Nat) (hb : c v ≠ b) :
+    Q n A o i_ γ (Function.update c v b) - Q n A o i_ γ c =
+      (2 * link n A c v b - γ * o v * vol n i_ c b - γ * i_ v * vol n o c b)
+      - (2 * (link n A c v (c v) - A v v) - γ * o v * (vol n i_ c (c v) - i_ v)
+          - γ * i_ v * (vol n o c (c v) - o v)) :=
+  Modularity.delta_move n A hA o i_ γ c v hv b hb
+
+/-! ## 3. the Louvain kernel -/
+
+/-- **scratch_invariant.**  Between two nodes of `optimize_core` the scratch array `cluster_weights` is
+    identically zero and `out/in_cluster_weights[x]` are the volumes of cluster `x` in the current labels
+    (`CoreInv`): the bookkeeping never drifts in exact arithmetic. -/
+theorem scratch_invariant (g : Graph Rat) (hg : GraphOK g) (res : Rat) (K : Nat) (st : St Rat) (acc : Rat)
+    (hinv : CoreInv g K st) (i : Nat) (hi : i < g.n) :
+    CoreInv g K (nodeStep g res (st, acc) i).1 :=
+  (nodeStep_spec g hg res K st acc hinv i hi).1
+
+/-- every move the kernel accepts has a strictly positive gain, equal to the change of `Q` -/
+theorem accepted_move_gain (g : Graph Rat) (hg : GraphOK g) (res : Rat) (K : Nat) (st : St Rat) (acc : Rat)
+    (hinv : CoreInv g K st) (i : Nat) (hi : i < g.n) :
+    (nodeStep g res (st, acc) i).2 - acc
+        = QG g res (nodeStep g res (st, acc) i).1.labels - QG g res st.labels ∧
+    ((nodeStep g res (st, acc) i).1.labels = st.labels ∨ acc < (nodeStep g res (st, acc) i).2) := by
+  obtain ⟨-, h2, -, h4⟩ := nodeStep_spec g hg res K st acc hinv i hi
+  refine ⟨h2, ?_⟩
+  rcases h4 with h | ⟨_, _, _, _, h⟩
+  · exact Or.inl h
+  · exact Or.inr h
+
+/-- **optimize_core_increase.**  If `optimize_core` returns (any fuel, any tolerance), the returned `increase` is
+    `Q(labels_out) − Q(labels_in)` and it is non-negative. -/
+theorem optimize_core_increase (g : Graph Rat) (hg : GraphOK g) (res tol : Rat) (K : Nat) (fuel : Nat)
+    (st : St Rat) (hinv : CoreInv g K st) (labels' : List Nat) (inc : Rat)
+    (h : optimizeCore g res tol fuel st = some (labels', inc)) :
+    inc = QG g res labels' - QG g res st.labels ∧ 0 ≤ inc :=
+  let ⟨h1, h2, _⟩ := optimizeCore_spec g hg res tol K fuel st hinv labels' inc h
+  ⟨h1, h2⟩
+
+/-- **clusters_within_components (one call of the kernel).**  A node only ever joins the cluster of a stored
+    neighbour: if every cluster of the incoming labels lies in one connected component of the stored pattern
+    (true of singletons), so does every cluster of the returned labels. -/
+theorem optimize_core_within_components (g : Graph Rat) (hg : GraphOK g) (res tol : Rat) (K : Nat) (fuel : Nat)
+    (st : St Rat) (hinv : CoreInv g K st) (labels' : List Nat) (inc : Rat)
+    (h : optimizeCore g res tol fuel st = some (labels', inc)) (hw : WithinComp g st.labels) :
+    WithinComp g labels' :=
+  let ⟨_, _, h3, _⟩ := optimizeCore_spec g hg res tol K fuel st hinv labels' inc h
+  h3.withinComp hg.cols hinv.len hw
 
 end SkNet.C06
